@@ -254,12 +254,20 @@ def run_bytes(res):
                                   f"codec({tname}).decode({b!r}) = {short(d.val if d.ok else d.exc, 80)}; expected {tname} with content {p!r}", {"bytes": tname})
             v = tcls(p)
             e = call(c.val.encode, v)
-            e2 = call(typelib.encode, v, t=tcls) if cfg == "default" else e
-            res.evals += 2
-            for name, o in (("Codec.encode", e), ("typelib.encode", e2)):
+            pair = CONFIGS[cfg]
+            e2 = call(typelib.encode, v, t=tcls) if pair is None else call(typelib.encode, v, t=tcls, encoder=pair[0])
+            e3 = call(typelib.encode, v) if pair is None else call(typelib.encode, v, encoder=pair[0])
+            res.evals += 3
+            for name, o in (("Codec.encode", e), ("typelib.encode", e2), ("typelib.encode-without-t", e3)):
                 good = o.ok and isinstance(o.val, (bytes, bytearray, memoryview)) and bytes(o.val) == p
-                if not good and name == "Codec.encode":
+                if not good:
                     res.violation(f"C02/bytes/encode/{tname}/{name}", f"{name}({v!r}) = {short(o.val if o.ok else o.exc, 80)}; expected the bytes verbatim", {"bytes": tname})
+            # the top-level decode agrees with Codec.decode (verbatim, whatever decoder is configured)
+            d2 = call(typelib.decode, tcls, p) if pair is None else call(typelib.decode, tcls, p, decoder=pair[1])
+            res.evals += 1
+            if not (d2.ok and isinstance(d2.val, tcls) and bytes(d2.val) == p):
+                res.violation(f"C02/bytes/decode/{tname}/typelib.decode/{'raises:' + d2.excname if not d2.ok else 'content'}",
+                              f"typelib.decode({tname}, {p!r}) = {short(d2.val if d2.ok else d2.exc, 80)}; expected {tname} with content {p!r} (as Codec.decode gives)", {"bytes": tname})
 
 
 _STRREF_SRC = """import dataclasses, json, typelib
